@@ -871,7 +871,9 @@ func runSpec(prop string) int {
 		cov["timed_blocking_pop_scenarios"] = n
 		cov["samples"] = append(cov["samples"].([]string), samples...)
 	}
-	if prop == "C09" || prop == "C06" {
+	if concStage[prop] {
+		// C01 C10 C11 C12 C18: the generated pairs of the property's value type (two clients, one command
+		// each, every schedule within the preemption bound; oracle: one of the two sequential orders);
 		// C09, "each element goes to exactly one popper": the list and blocking-pop pairs; C06, "all
 		// instants at which a command probes the key relative to the deadline": the expired-key pairs
 		// (reaper timer as a third thread) - both from the interleaving explorer (engines/concmc,
@@ -904,6 +906,9 @@ func runSpec(prop string) int {
 	}
 	return rc
 }
+
+// properties whose check has a second, concurrent stage (engines/concmc run as a subprocess)
+var concStage = map[string]bool{"C01": true, "C06": true, "C09": true, "C10": true, "C11": true, "C12": true, "C18": true}
 
 var harnessErrors int
 
